@@ -74,6 +74,7 @@ type c02Ctx struct {
 	wFee     int
 	wDeliver [2]int
 	pProbe   int // probe after a step with probability 1/pProbe (1 = always)
+	pBogus   int // a dishonest revocation before an honest one with probability 1/pBogus
 }
 
 func c02Name(x int) string { return string(rune('A' + x)) }
@@ -314,6 +315,15 @@ func (c *c02Ctx) dumpDisk(x int, oc *chanstate.OpenChannel) {
 	if _, err := oc.RevocationStore.LookUp(rh); err == nil {
 		store = -2
 	}
+	// the store still reproduces EVERY secret the peer has revealed so far
+	storeAll := 1
+	for i := uint64(0); i < rh; i++ {
+		got, err := oc.RevocationStore.LookUp(i)
+		want, _ := c.p.Ch[peer].channelState.RevocationProducer.AtIndex(i)
+		if err != nil || want == nil || !bytes.Equal(got[:], want[:]) {
+			storeAll = 0
+		}
+	}
 	prev, curlog := 1, 0
 	if rh > 0 {
 		if _, _, err := oc.FindPreviousState(rh - 1); err != nil {
@@ -342,9 +352,9 @@ func (c *c02Ctx) dumpDisk(x int, oc *chanstate.OpenChannel) {
 		}
 		return 0
 	}
-	fmt.Fprintf(&sb, "K %s lh=%d rh=%d ph=%s lwr=%d ua=%s rul=%s rcur=%d rnext=%d store=%d prev=%d curlog=%d "+
+	fmt.Fprintf(&sb, "K %s lh=%d rh=%d ph=%s lwr=%d ua=%s rul=%s rcur=%d rnext=%d store=%d storeall=%d prev=%d curlog=%d "+
 		"lsig=%s lhs=%s dsig=%s st=%d\n", name, oc.LocalCommitment.CommitHeight, rh, ph,
-		b2i(oc.LastWasRevoke), uaN, rulN, rcur, rnext, store, prev, curlog,
+		b2i(oc.LastWasRevoke), uaN, rulN, rcur, rnext, store, storeAll, prev, curlog,
 		c02Hash(oc.LocalCommitment.CommitSig), c02Hash(sigParts...), dsig, uint64(oc.ChanStatus()))
 	c.diskCommit(&sb, name, "L", &oc.LocalCommitment)
 	c.diskCommit(&sb, name, "R", &oc.RemoteCommitment)
@@ -738,6 +748,83 @@ func (c *c02Ctx) borkedTail() {
 // schedule
 // ---------------------------------------------------------------------------
 
+// c02RevErr classifies the answer of ReceiveRevocation.
+func c02RevErr(err error) string {
+	switch {
+	case err == nil:
+		return "ok"
+	case strings.Contains(err.Error(), "revocation key mismatch"):
+		return "keyMismatch"
+	case strings.Contains(err.Error(), "isn't derivable"):
+		return "storeReject"
+	}
+	return c01ErrClass(err)
+}
+
+// bogusRevocation: the oldest message of direction d is an honest
+// revoke_and_ack; BEFORE it, a dishonest variant is handed to the receiver:
+// the secret has one bit flipped / is the peer's secret of another height / is
+// random, the next commitment point is the right one or a wrong one.  The
+// receiver must refuse it, persist nothing, and keep every earlier secret.
+// Afterwards both sides reconnect (lnd fails the link on a refused revocation;
+// the in-memory shachain store may have taken the value before the commitment
+// point comparison failed), the honest revocation is retransmitted by the
+// channel_reestablish exchange and must be accepted.
+func (c *c02Ctx) bogusRevocation(d int) {
+	honest := c.p.Q[d][0].rev
+	snd, rcv := d, 1-d
+	ch := c.p.Ch[rcv]
+	h := ch.commitChains.Remote.tail().height
+	prod := c.p.Ch[snd].channelState.RevocationProducer
+	bad := *honest
+	kind := c01Pick(c.r, "flip", "other", "other", "random")
+	switch kind {
+	case "flip":
+		bad.Revocation[c.r.Intn(32)] ^= 1 << uint(c.r.Intn(8))
+	case "other":
+		o := h + 1 + uint64(c.r.Intn(3))
+		if h > 0 && c.r.Intn(2) == 0 {
+			o = h - 1 - uint64(c.r.Intn(int(h)))
+		}
+		sec, _ := prod.AtIndex(o)
+		copy(bad.Revocation[:], sec[:])
+	case "random":
+		c.r.Read(bad.Revocation[:])
+	}
+	np := "ok"
+	if c.r.Intn(3) == 0 {
+		np = "bad"
+		sec, _ := prod.AtIndex(h + 3 + uint64(c.r.Intn(3)))
+		bad.NextRevocationKey = input.ComputeCommitmentPoint(sec[:])
+	}
+	res := "ok"
+	func() {
+		defer c01Recover(&res)
+		_, _, err := ch.ReceiveRevocation(&bad)
+		res = c02RevErr(err)
+	}()
+	var npb []byte
+	if bad.NextRevocationKey != nil {
+		npb = bad.NextRevocationKey.SerializeCompressed()
+	}
+	dir := "AB"
+	if d == 1 {
+		dir = "BA"
+	}
+	c.emit("W %s kind=%s np=%s h=%d s=%d npi=%d => %s %s\n", dir, kind, np, h,
+		c.secretIndex(snd, bad.Revocation, h+8), c.pointIndex(snd, npb, h+10), res, c.qlen())
+	c.s.dump(rcv)
+	c.stats["bogus_"+kind+"_"+res]++
+	c.probe(rcv)
+	if res == "ok" {
+		// the property is already violated; the channel state is poisoned
+		c.stop = true
+		return
+	}
+	c.reconnect()
+	c.after()
+}
+
 // deliver hands the oldest message of direction d to its receiver.  A node that
 // has accepted a commitment revokes in the same handler (as lnd's link does:
 // ReceiveNewCommitment is directly followed by RevokeCurrentCommitment); the
@@ -749,6 +836,10 @@ func (c *c02Ctx) borkedTail() {
 func (c *c02Ctx) deliver(d int, crashWindow bool) {
 	s := c.s
 	kind := s.p.Q[d][0].kind
+	if kind == "revoke" && crashWindow && c.r.Intn(c.pBogus) == 0 {
+		c.bogusRevocation(d)
+		return
+	}
 	res := s.runDeliver(d)
 	c.after()
 	if c.stop || kind != "commitsig" || res != "ok" {
@@ -1016,7 +1107,7 @@ func c02RunCase(t *testing.T, w *bufio.Writer, stats map[string]int, caseID int,
 	s := &c01Sched{r: r, p: pair, w: w, stats: stats}
 	c := &c02Ctx{s: s, p: pair, w: w, r: r, stats: stats,
 		seenRev: map[*lnwire.RevokeAndAck]bool{}, seenSig: map[*CommitSigs]bool{},
-		taproot: p.ChanType.IsTaproot(), pProbe: pProbe}
+		taproot: p.ChanType.IsTaproot(), pProbe: pProbe, pBogus: 5}
 	lazy := r.Intn(3)
 	for x := 0; x < 2; x++ {
 		c.wSign[x], c.wRevoke[x], c.wDeliver[x] = 4, 8, 4
